@@ -9,19 +9,21 @@
   exception: zero total input, where the stream finishes successfully with empty
   output while the one-shot decoder reports a too-short header.
 
-  Status.  Everything is proved except the numeric 20-byte bound `Need20`
-  (`MAX_REQUIRED_INPUT = 20` bytes always suffice to decode one symbol), which is
-  an explicit hypothesis of every theorem named `…_partial`.  Layers:
-  (A) header state machine `stream_header_equiv` — complete, unconditional;
+  Status: COMPLETE, no hypothesis left.  Layers:
+  (A) header state machine `stream_header_equiv`;
   (B) prefix stability of the bit decoder `runDec_prefix_ok/err`,
-      `processNext_prefix_cases` — complete, unconditional;
-  (L5) `after_marker_continuation_errs` — complete, unconditional;
+      `processNext_prefix_cases`;
+  (C) the 20-byte bound `need20 : Need20` (potential `range * 256^(bytes left)`,
+      worst path 22 probability bits + 26 direct bits);
+  (L5) `after_marker_continuation_errs`;
   (D) data phase: `stream_loop_sim_partial` (one `read_data`), `data_run_partial`
-      (any chunk list), general theorem `stream_equals_oneshot_partial` —
-      complete modulo `Need20`;
-  `stream_zero_input` — complete, unconditional.
+      (any chunk list), general theorem `stream_equals_oneshot`;
+  `stream_zero_input`.
+  The theorems named `…_partial` take `Need20` as an explicit hypothesis (they
+  were proved first); the unsuffixed ones discharge it with `need20`.
 -/
 import LzmaProofs.Lemmas.StreamEquivMain
+import LzmaProofs.Lemmas.StreamEquivNeed20
 namespace Lzma
 namespace C05
 
@@ -100,6 +102,43 @@ theorem stream_chunks_merge_partial (hN : Need20) (opts : Options) (hA : opts.al
   have h2 := stream_veq_oneshot_partial hN opts hA cs' (by rw [← h]; exact hne) snk
   rw [h] at h1
   exact h1.trans h2.symm
+
+/-! ## the property, unconditionally -/
+
+/-- **C05.**  For every option set with `allow_incomplete = false`, every
+division `cs` of a non-empty input into chunks and every sink (perfect, scripted
+or faulty): the stream run (`feed` every chunk, then `finish`) succeeds iff
+`lzma_decompress_with_options` succeeds on the concatenated bytes, and then both
+leave the identical sink — in particular byte-identical output. -/
+theorem stream_equals_oneshot (opts : Options) (hA : opts.allowIncomplete = false)
+    (cs : List Bytes) (hne : cs.flatten ≠ []) (snk : Sink) :
+    (Ok (streamRun opts cs snk) ↔ Ok (lzmaDecompress (Rd.ofBytes cs.flatten) opts snk)) ∧
+    (Ok (streamRun opts cs snk) →
+      (streamRun opts cs snk).1 = (lzmaDecompress (Rd.ofBytes cs.flatten) opts snk).1) :=
+  stream_equals_oneshot_partial need20 opts hA cs hne snk
+
+/-- C05 in verdict-equivalence form: both runs fail, or they are equal -/
+theorem stream_veq_oneshot (opts : Options) (hA : opts.allowIncomplete = false)
+    (cs : List Bytes) (hne : cs.flatten ≠ []) (snk : Sink) :
+    Veq (streamRun opts cs snk) (toUnit (lzmaDecompress (Rd.ofBytes cs.flatten) opts snk)) :=
+  stream_veq_oneshot_partial need20 opts hA cs hne snk
+
+/-- C05 on the perfect sink `{}`: same verdict, equal output bytes -/
+theorem stream_equals_oneshot_out (opts : Options) (hA : opts.allowIncomplete = false)
+    (cs : List Bytes) (hne : cs.flatten ≠ []) :
+    (Ok (streamRun opts cs {}) ↔ Ok (lzmaDecompress (Rd.ofBytes cs.flatten) opts {})) ∧
+    (Ok (streamRun opts cs {}) →
+      (streamRun opts cs {}).1.out = (lzmaDecompress (Rd.ofBytes cs.flatten) opts {}).1.out) :=
+  stream_equals_oneshot_out_partial need20 opts hA cs hne
+
+/-- the division into chunks is irrelevant -/
+theorem stream_chunks_merge (opts : Options) (hA : opts.allowIncomplete = false)
+    (cs cs' : List Bytes) (h : cs.flatten = cs'.flatten) (hne : cs.flatten ≠ []) (snk : Sink) :
+    Veq (streamRun opts cs snk) (streamRun opts cs' snk) :=
+  stream_chunks_merge_partial need20 opts hA cs cs' h hne snk
+
+/-- (C) the 20-byte bound -/
+theorem need20 : Need20 := StreamEq.need20
 
 /-! ## zero total input: the one exception -/
 
